@@ -302,6 +302,7 @@ brk("C08", "c08-dup-none-last", SL, '      if context.previous_word is not None 
 brk("C08", "c08-dup-or", SL, '      if context.previous_word is not None and context.previous_word.value == scc_word.value and context.previous_word.is_code():\n', '      if context.previous_word is not None and (context.previous_word.value == scc_word.value or context.previous_word.is_code()):\n', "DUP")
 ben("C08", "c08-benign-dup-demorgan", SL, '      if context.previous_word is not None and context.previous_word.value == scc_word.value and context.previous_word.is_code():\n', '      previous_word = context.previous_word\n      if not (previous_word is None or previous_word.value != scc_word.value or not previous_word.is_code()):\n')
 ben("C08", "c08-benign-dup-reordered", SL, '      if context.previous_word is not None and context.previous_word.value == scc_word.value and context.previous_word.is_code():\n', '      if context.previous_word is not None and context.previous_word.is_code() and scc_word.value == context.previous_word.value:\n')
+brk("C08", "c08-dup-clears-type", SL, '        context.previous_word = None\n        continue\n\n      self.time_code.add_frames()', '        context.previous_word = None\n        context.previous_word_type = None\n        continue\n\n      self.time_code.add_frames()', "DUP")
 brk("C08", "c08-channel2-text", SL, "        if context.current_channel is not SccChannel.CHANNEL_1:\n          # LOGGER.warning(\"Skip Caption Channel 2 code\")\n          continue\n\n", "", "ORD-channel")
 brk("C08", "c08-ext-no-backspace", SL, "        elif isinstance(scc_code, SccExtendedCharacter):\n          context.backspace()\n", "        elif isinstance(scc_code, SccExtendedCharacter):\n", "ORD-ext")
 brk("C08", "c08-rows-unsorted", "ttconv/scc/caption_paragraph.py", "    for row, caption_line in sorted(self._caption_lines.items()):", "    for row, caption_line in self._caption_lines.items():", "ORD-rows")
